@@ -41,10 +41,16 @@ EXTRA = {
         "the work-list discipline is a parameter of the model (theorems hold for every discipline); the run uses "
         "the discipline observed on a two-root probe (LIFO for `list.pop()`)",
         "single-threaded load, no file changes during a load",
+        "outside the generated domain (reported defects, not judged): a folder entry named exactly `.csv` / `.xlsx` "
+        "matches the default file-name pattern and ends the load with ValueError 'Unsupported file extension' without "
+        "the tracker being told",
     ],
-    "explanation": "Props/C16.lean: terminates (fuel bound from the world), reads_sound / reads_reachable (work-list "
+    "explanation": "Props/C16.lean: terminates (fuel bound from the world), reads_sound_spec / reads_reachable_spec "
+                   "(the reachability the loader computes) and reads_sound_partial / reads_reachable_partial (the "
+                   "property's reachability, under Spec.entriesFaithful; full strength is false: reads_reachable_fails, "
+                   "open finding F6) (work-list "
                    "invariant), at_most_once, blocks_contiguous_in_file_order (+ includes_consumed), duplicate_reported "
-                   "(per location: tracker errors = arrivals - 1), default_tracker_stops_at_duplicate, protocol_dispatch "
+                   "(per location: tracker errors = arrivals - 1), default_tracker_completes_only_without_repeats, dup_step, protocol_dispatch "
                    "(+ protocol_dispatch_file_override), bad_table_status — reachability and blocks are taken in "
                    "effWorld (each file cut to what a read under the tracker gets through) — "
                    "for every world, root list, tracker, allow_include and work-list discipline.",
@@ -53,7 +59,7 @@ EXTRA = {
 
 SEP = ";"
 
-# known finding F4 (open): FolderReader pushes a folder entry's NAME as a specification, so entries named `\x.csv`,
+# known finding F6 (open; the constant names below keep their first name): FolderReader pushes a folder entry's NAME as a specification, so entries named `\x.csv`,
 # `file:x.csv`, `FILE:x.csv`, `<registered protocol>:x.csv` are not loaded (another location is resolved instead).
 # Such names are generated only once the finding is listed in known_findings.json under this key.
 F4_KEY = "folder_entry_read_as_specification"
@@ -577,11 +583,11 @@ def _canonical(case, m, r, events, tracker):
                "out": out, "reads": reads, "issues": issues}
 
 
-def model_op(case, m, nodes, table, order):
+def model_op(case, m, nodes, table, order, reads=None, outs=None):
     if isinstance(order, str):
         order = {"pop": order, "children": "listing", "lines": "forward"}
     m.order = order
-    return {"op": "load", "nodes": apply_order(case, nodes, order),
+    return {"op": "load", "nodes": apply_order(case, m, nodes, table, order, reads or [], outs or ()),
             "protocols": [["mem", 1]] if case["mem"] else None,
             "resolve": table,
             "child_loc": [[fid, n, loc_id(m, str(Path(m.path_of[fid]) / n))] for fid, names in m.listing.items()
@@ -621,8 +627,6 @@ def compare(case, m, impl, ans, out, with_history=False):
         if with_history and a["history"] is not None:
             keys.append("history")
         for k in keys:
-            if k == "lines" and getattr(m, "order", {}).get("lines") == "reverse" and b["name"] == "include":
-                b = dict(b, lines=b["lines"][::-1])
             if a[k] != b[k]:
                 out.mismatch(f"yielded block differs in '{k}'", case, a, b)
                 return
@@ -630,7 +634,8 @@ def compare(case, m, impl, ans, out, with_history=False):
     if impl["reads"] != vis:
         out.mismatch("order / set of locations read differs (audit hook vs model `visited`)", case, impl["reads"], vis)
         return
-    if case["tracker"] == "collecting" and impl["issues"] != ans["issues"]:
+    # which repeated arrival comes first depends on the order of work: the tracker contents are compared as a bag
+    if case["tracker"] == "collecting" and sorted(map(repr, impl["issues"])) != sorted(map(repr, ans["issues"])):
         out.mismatch("tracker contents differ", case, impl["issues"], ans["issues"])
         return
     if ans["status"] == "outOfFuel":
@@ -715,7 +720,7 @@ def oracle(case, m, impl, out):
 
     def fail(what, key, observed=None, expected=None):
         if f4:
-            # known finding F4: whatever goes wrong in a load that lists such an entry is reported under its key
+            # known finding F6: whatever goes wrong in a load that lists such an entry is reported under its key
             out.fail(F4_WHAT, short, {"entries": f4, "seen_as": what,
                                       "observed": observed if observed is not None else impl["status"]},
                      expected, key=F4_KEY)
@@ -952,7 +957,7 @@ def gen_sheet(rng, fi, si, name, elements, xlsx, offsets=True, lead_fixed=None):
 HOSTILE_TITLES = ["in a b", "it's", "x!A3", "s#", "\u00e9_\u00fc", "in_'q'!A7", " lead", "#'x'!A1", "'q", "set_q'",
                   "in_tab\t", "x'!A"]
 
-FOLDER_LAYOUTS = [[""], ["", "p"], ["", "p", "p/q"], ["", "p", "r"], ["", "in_d.csv"],
+FOLDER_LAYOUTS = [[""], ["", "p"], ["", "p", "p/q"], ["", "p", "r"], ["", "in_d.csv"], ["", "p", "q", "q/p"],
                   ["", "p", "p_old"], ["", "pq", "p"]]   # folders whose names extend each other
 
 
@@ -1033,6 +1038,7 @@ def build_case(rng, n_files, edges, *, folders, kinds, root_folder, roots_mode, 
     """edges: set of (i, j) file→file includes; extra_edges: (i, target) with target a ("D", rel) or a bad marker"""
     prefixes = ["in_", "set_", "x_", "In_"]
     files = []
+    reuse_names = rich and len(set(folders)) > 1 and rng.random() < 0.4
     for i in range(n_files):
         kind = kinds[i]
         folder = folders[i % len(folders)] if kind != "mem" else ""
@@ -1046,6 +1052,13 @@ def build_case(rng, n_files, edges, *, folders, kinds, root_folder, roots_mode, 
         ext = {"csv": rng.choice([".csv", ".csv", ".CSV"]), "xlsx": rng.choice([".xlsx", ".xlsx", ".XLSX"]), "txt": ".txt",
                "mem": ""}[kind]
         path = (folder + "/" if folder else "") + base + ext if kind != "mem" else f"m{i}"
+        if kind != "mem" and reuse_names:
+            # the same base name again in another folder: a file is its path, not its name
+            twins = [g for g in files if g["kind"] == kind and os.path.dirname(g["path"]) != folder]
+            if twins:
+                cand = (folder + "/" if folder else "") + os.path.basename(rng.choice(twins)["path"])
+                if all(g["path"] != cand for g in files):
+                    path = cand
         files.append({"path": path, "kind": kind, "sheets": []})
     case = {"sibling": bool((opts or {}).get("sibling")),
             "folders": sorted(set(folders) | {""}), "files": files, "root_folder": root_folder,
@@ -1230,6 +1243,14 @@ def gen_cases(tier, seed, search=False):
         crng = make_rng(seed, f"C16:r:{k}")
         yield idx, random_case(crng)
         idx += 1
+    # (c') one folder with more entries than any cap a reader might have: 70 matching files, listed as the root
+    crng = make_rng(seed, "C16:wide")
+    case = build_case(crng, 70, set(), folders=["w"], kinds=["csv"] * 70, root_folder=True, roots_mode="file",
+                      start_pattern=None, tracker="collecting", allow_include=True, mem=False, rich=False)
+    case["roots"], case["root_targets"] = ["/w"], [("D", "w")]
+    case["gen"] = {"chain": 70, "wide": True}
+    yield idx, case
+    idx += 1
     # (c) long include chains: file i includes file i+1 (the last one closes the cycle half the time)
     for n in ([64, 130] if not thorough else [64, 130, 257, 600]):
         crng = make_rng(seed, f"C16:chain:{n}")
@@ -1264,7 +1285,7 @@ def random_case(crng, xlsx_share=0.2, force_mem=False, force_default_roots=False
     extra = []
     hostile = None
     if f4_listed() and n >= 2 and crng.random() < 0.04:
-        # known finding F4: one file, reachable only through the listing of its folder, gets a name that reads
+        # known finding F6: one file, reachable only through the listing of its folder, gets a name that reads
         # like a specification
         j = crng.randrange(1, n)
         hostile = (j, crng.choice(["\\", "file:", "FILE:", "mem:", "File:"]))
@@ -1366,28 +1387,86 @@ def probe_order(scratch):
     return order
 
 
-def apply_order(case, nodes, order):
-    """the world as the model is told it, with the observed push orders applied"""
+def apply_order(case, m, nodes, table, order, reads, outs=()):
+    """the world as the model is told it.  Nothing is promised about the order in which the entries of one folder
+    (or the lines of one directive) are worked through, so that order is taken from THIS run: the entries /
+    lines are handed over in the order that, under the observed pop discipline, gives the observed sequence of
+    reads.  What was not read (already visited, or the load stopped first) keeps its listed order."""
     import copy
-    if order["children"] == "listing" and order["lines"] == "forward":
-        return nodes
+    pos = {}
+    for k, l in enumerate(reads):
+        pos.setdefault(l, k)
+    target = {}
+    for h, spec, src, loc in table:
+        if loc is not None and ((spec, src) not in target or loc in pos):
+            target[(spec, src)] = loc
+    lifo = order["pop"] == "lifo"
+    used = {}            # location -> the specification it was actually loaded by (from the blocks' load histories)
+    for o in outs:
+        if o.get("history"):
+            used.setdefault(o["loc"], o["history"][0][0])
+
+    def arrange(items, key_of, src):
+        # only a read that came AFTER the read of the folder / file the item was found in can be due to it
+        seen_, obs, rest = set(), [], []
+        after = pos.get(src, -1)
+        cand = {}
+        for it in items:
+            loc = target.get(key_of(it))
+            if loc in pos and pos[loc] > after:
+                cand.setdefault(loc, []).append(it)
+        chosen = {}
+        for loc, its in cand.items():
+            # the item the location was loaded by, if its blocks tell (load history); when they tell and it is
+            # none of these items the read was caused elsewhere; unknown → the one popped first
+            # (a location whose blocks tell nothing — no table, directive or metadata block — stays as listed)
+            its = [it for it in its if key_of(it)[0] == used[loc]] if loc in used else \
+                (its if m.kind.get(loc) == "folder" else [])
+            if its:
+                chosen[loc] = id(its[-1 if lifo else 0])
+        slots = []
+        for k, it in enumerate(items):
+            loc = target.get(key_of(it))
+            if loc in chosen and chosen[loc] == id(it) and loc not in seen_:
+                seen_.add(loc)
+                obs.append((pos[loc], it))
+                slots.append(k)
+        obs = [it for _, it in sorted(obs, key=lambda x: x[0])]
+        if lifo:
+            obs = obs[::-1]
+        # what was read goes, in the derived push order, into the places the read items have in the listing; what was
+        # not read stays where it is listed (with the order as listed this is the identity)
+        res = list(items)
+        for k, it in zip(slots, obs):
+            res[k] = it
+        return res
+
     nodes = copy.deepcopy(nodes)
-    truth_of = {}
+    file_nodes = [n for n in nodes if n["kind"] != "folder"]
     for n in nodes:
         if n["kind"] == "folder":
+            fid = n["loc"]
             ch = n["children"]
+            # first the order seen on the probe (decides where entries that were NOT read go), then this run's reads
             n["children"] = {"listing": ch, "sorted": sorted(ch), "reverse": ch[::-1],
-                             "sorted_desc": sorted(ch, reverse=True)}[order["children"]]
-    if order["lines"] == "reverse":
-        file_nodes = [n for n in nodes if n["kind"] != "folder"]
-        for f, n in zip(case["files"], file_nodes):
+                             "sorted_desc": sorted(ch, reverse=True)}[order.get("children", "listing")]
+            match = [c for c in n["children"] if c[1]]
+            n["children"] = arrange(match, lambda c: (c[0], fid), fid) + [c for c in n["children"] if not c[1]]
+    if case["allow_include"]:
+        for f, fid, n in zip(case["files"], m.file_id, file_nodes):
             if n["kind"] != "file":
                 continue
             for gs, sh in zip(f["sheets"], n["sheets"]):
                 for b in gs["truth"]:
-                    if b["ty"] == "DIRECTIVE" and b["name"] == "include":
+                    if b["ty"] == "DIRECTIVE" and b["name"] == "include" and len(b["lines"]) > 1:
                         lo, hi = b["row"] + 1, b["row"] + 1 + len(b["lines"])
-                        sh["rows"][lo:hi] = sh["rows"][lo:hi][::-1]
+                        rows = sh["rows"][lo:hi]
+                        if len(rows) == len(b["lines"]):
+                            base = list(range(len(rows)))
+                            if order.get("lines") == "reverse":
+                                base = base[::-1]
+                            idx = arrange(base, lambda k: (subst(b["lines"][k], m), fid), fid)
+                            sh["rows"][lo:hi] = [rows[k] for k in idx]
     return nodes
 
 
@@ -1412,6 +1491,9 @@ def classify(case, impl, out):
     out.count("arg:sep=" + case.get("sep", SEP))
     if any(f["path"].endswith(".XLSX") for f in case["files"]):
         out.count("cases_with_an_upper_case_xlsx_extension")
+    if len({os.path.basename(f["path"]) for f in case["files"] if f["kind"] != "mem"}) < \
+            sum(1 for f in case["files"] if f["kind"] != "mem"):
+        out.count("cases_with_one_base_name_in_two_folders")
     if case.get("sibling") and any("{RN}_old" in ln for f in case["files"] for sh in f["sheets"] for b in sh["truth"]
                                    if b["ty"] == "DIRECTIVE" for ln in b["lines"]):
         out.count("cases_with_an_include_into_a_sibling_whose_name_extends_the_root")
@@ -1584,7 +1666,7 @@ def run_history(calls, base: Path, out, hist_input, order=None, ops=None, pend=N
             return False
         if ops is not None:
             table = resolve_table(case, m, r.MemLocationFile)
-            ops.append(model_op(case, m, nodes, table, order))
+            ops.append(model_op(case, m, nodes, table, order, r.canon["reads"], r.canon["out"]))
             pend.append((dict(hist_input, failing_call=j), m, r.canon, case))
     return True
 
@@ -1630,7 +1712,7 @@ def run(tier, seed, model_ok, translator, search=False):
                 break
             if model_ok and not search:
                 table = resolve_table(case, m, r.MemLocationFile)
-                ops.append(model_op(case, m, nodes, table, order))
+                ops.append(model_op(case, m, nodes, table, order, r.canon["reads"], r.canon["out"]))
                 pend.append((case, m, impl, case))
             shutil.rmtree(m.root, ignore_errors=True)
         # (c) histories: consecutive calls sharing one protocol dict
